@@ -87,6 +87,61 @@ fn scan_drop<T>(v: T, pats: &[Vec<u8>]) -> Vec<&'static str> {
         .collect()
 }
 
+// ------------------------------------------------------------------------------------------------
+// Heap side of the wipe probe: the probe's allocator looks at a block at the moment it is freed.
+// A boxed value is dropped and freed in one go, so a wipe written as plain stores (not volatile) is a
+// dead store in front of the deallocation and an optimising build may delete it; the in-place scan
+// above cannot see that, because its own reads keep the stores alive.
+mod heapwatch {
+    use std::ffi::c_void;
+    use std::sync::atomic::{AtomicBool, AtomicUsize, Ordering};
+    static ARMED: AtomicBool = AtomicBool::new(false);
+    static HIT: AtomicBool = AtomicBool::new(false);
+    static LEN: AtomicUsize = AtomicUsize::new(0);
+    static mut PAT: [u8; 96] = [0; 96];
+    extern "C" {
+        fn __libc_free(p: *mut c_void);
+        fn malloc_usable_size(p: *mut c_void) -> usize;
+    }
+    /// Interposes the C library's `free`, which Rust's default allocator calls (glibc): the block is
+    /// inspected at the moment it is handed back, then really freed. The default allocator is kept on
+    /// purpose: the optimiser knows what a deallocation is and may delete plain stores in front of it.
+    #[no_mangle]
+    pub unsafe extern "C" fn free(p: *mut c_void) {
+        if !p.is_null() && ARMED.load(Ordering::SeqCst) {
+            let n = LEN.load(Ordering::SeqCst);
+            let have = malloc_usable_size(p);
+            if n > 0 && have >= n {
+                let hay = std::slice::from_raw_parts(p as *const u8, have);
+                let pat = &*std::ptr::addr_of!(PAT);
+                let mut i = 0;
+                while i + n <= have {
+                    if hay[i..i + n] == pat[..n] {
+                        HIT.store(true, Ordering::SeqCst);
+                        break;
+                    }
+                    i += 1;
+                }
+            }
+        }
+        __libc_free(p)
+    }
+    /// Boxes `v`, drops the box with the watch armed for `pat`; true if a freed block held `pat`
+    pub fn boxed_drop_leaks<T>(v: T, pat: &[u8]) -> bool {
+        let b = std::hint::black_box(Box::new(v));
+        unsafe {
+            let p = &mut *std::ptr::addr_of_mut!(PAT);
+            p[..pat.len()].copy_from_slice(pat);
+        }
+        LEN.store(pat.len(), Ordering::SeqCst);
+        HIT.store(false, Ordering::SeqCst);
+        ARMED.store(true, Ordering::SeqCst);
+        drop(b);
+        ARMED.store(false, Ordering::SeqCst);
+        HIT.load(Ordering::SeqCst)
+    }
+}
+
 fn hexs(b: &[u8]) -> String {
     b.iter().map(|x| format!("{:02x}", x)).collect()
 }
@@ -303,7 +358,16 @@ macro_rules! transcript {
             let (ss, _enc) = <Kem as KemTrait>::encap(&pk_r, None, &mut DetRng(77)).unwrap();
             let ss_bytes = ss.0.to_vec();
             let w2 = scan_drop(ss, &[ss_bytes]);
-            let word = format!("receiver context: base_nonce {} exporter_secret {}; shared_secret {}", words[0], words[1], w2[0]);
+            // the same values boxed: dropped and freed in one go
+            let r2 = hpke::setup_receiver::<ChaCha20Poly1305, HkdfSha256, Kem>(&OpModeR::<Kem>::Base, &sk_w, &enc_w, info).unwrap();
+            let h1 = heapwatch::boxed_drop_leaks(r2, &unhex(exp_hex));
+            let r3 = hpke::setup_receiver::<ChaCha20Poly1305, HkdfSha256, Kem>(&OpModeR::<Kem>::Base, &sk_w, &enc_w, info).unwrap();
+            let h2 = heapwatch::boxed_drop_leaks(r3, &unhex(nonce_hex));
+            let (ss3, _enc) = <Kem as KemTrait>::encap(&pk_r, None, &mut DetRng(77)).unwrap();
+            let ss3_bytes = ss3.0.to_vec();
+            let h3 = heapwatch::boxed_drop_leaks(ss3, &ss3_bytes);
+            let hw = |b: bool| if b { "SURVIVED" } else { "wiped" };
+            let word = format!("receiver context: base_nonce {} exporter_secret {}; shared_secret {}; boxed: base_nonce {} exporter_secret {} shared_secret {}", words[0], words[1], w2[0], hw(h2), hw(h1), hw(h3));
             println!("WIPE {} {}", $name, word);
             h.update(word.as_bytes());
         }
